@@ -342,6 +342,15 @@ def lib_eval(s, env, suffixes):
     return call(evaluator, s, env, fresh_funcs(), suffixes)
 
 
+def resuffix(t, table1, table2):
+    """The same tree with every suffixed number literal revalued for another suffix table (texts unchanged)."""
+    if isinstance(t, list):
+        if t and t[0] == 'num' and len(t) == 3 and isinstance(t[1], str) and t[1][-1] in table1 and not t[1][-1].isdigit():
+            return ['num', t[1], t[2] / table1[t[1][-1]] * table2[t[1][-1]]]
+        return [resuffix(c, table1, table2) for c in t]
+    return t
+
+
 def names_in_tree(t):
     return bool(X.names_of(t)['vars'])
 
@@ -402,12 +411,17 @@ def judge_tree(spec, rec):
     # the same formula in a second scope (other variable values, user functions replaced by different ones): its value
     # is a function of the string AND the scope handed in - nothing may be remembered per string
     env2 = {k: ((v * 1.5 + 0.25) if k in X.VAR_NAMES else v) for k, v in env.items()}
+    # ... and with another suffix table (the evaluator takes the multipliers as an argument: 'k' may mean 1024)
+    suffixes2 = {k: v * (1.024 if k != '%' else 2.0) for k, v in suffixes.items()}
+    t2 = resuffix(t, suffixes, suffixes2) if X.names_of(t)['suffixes'] else t
     try:
-        ref2, tol2 = X.ref_with_conditioning(t, env2)
+        ref2, tol2 = X.ref_with_conditioning(t2, env2)
     except Discard:
         ref2 = None
-    if ref2 is not None and names_in_tree(t) and abs(ref2 - ref) > 10 * (tol + tol2):
-        kind, out = lib_eval(base, env2, suffixes)
+    if t2 is not t:
+        rec.cls('tree/second-suffix-table')
+    if ref2 is not None and (names_in_tree(t) or t2 is not t) and abs(ref2 - ref) > 10 * (tol + tol2):
+        kind, out = lib_eval(base, env2, suffixes2)
         rec.calls()
         rec.cls('tree/second-scope')
         if kind == 'err':
